@@ -254,10 +254,15 @@ impl Default for NetCfg {
 
 impl NetCfg {
     pub fn random(rng: &mut Rng) -> Self {
+        // under Miri a scheduler step costs milliseconds: no 1-byte chunks or 1-byte budgets there
+        // (the interpreter is after undefined behaviour on the code paths, not after schedules)
+        let chunk_style = rng.below(4) as u8;
+        let grant = *rng.pick(&[1usize, 2, 3, 7, 16, 64, 1000, 100_000]);
+        let (chunk_style, grant) = if cfg!(miri) { (if chunk_style == 1 || chunk_style == 2 { 3 } else { chunk_style }, grant.max(64)) } else { (chunk_style, grant) };
         NetCfg {
-            chunk_style: rng.below(4) as u8,
+            chunk_style,
             backpressure: rng.bool(),
-            max_budget_grant: *rng.pick(&[1usize, 2, 3, 7, 16, 64, 1000, 100_000]),
+            max_budget_grant: grant,
             ordered_accept: true,
             stall_budget: Vec::new(),
             manual_pipes: Vec::new(),
